@@ -13,9 +13,28 @@ import (
 )
 
 type FidelityResult struct {
-	Scenarios int `json:"scenarios"`
-	Exact     int `json:"exact"`
-	AsLineSet int `json:"equal_as_line_multiset"`
+	Scenarios      int `json:"scenarios"`
+	Exact          int `json:"exact"`
+	AsLineSet      int `json:"equal_as_line_multiset"`
+	OrderDependent int `json:"plain_result_reached_under_another_seeded_order"`
+}
+
+// reachable: some seeded map order / schedule makes the instrumented binary
+// print what the plain binary printed.
+func reachable(env *Env, b *Base, rp *Result) bool {
+	for k, pol := range []string{"reverse", "shuffle", "shuffle", "rotate", "shuffle", "shuffle", "shuffle", "shuffle"} {
+		st := b.StepOf(uint64(1000 + k))
+		st.MapPolicy = pol
+		st.SchedPolicy = []string{"random", "rtb-high", "prefer-high", "rtb-random"}[k%4]
+		r, err := env.Exec(&st)
+		if err != nil {
+			return false
+		}
+		if r.Exit == rp.Exit && (bytes.Equal(r.Stdout, rp.Stdout) || sortedLines(r.Stdout) == sortedLines(rp.Stdout)) {
+			return true
+		}
+	}
+	return false
 }
 
 func sortedLines(b []byte) string {
@@ -80,6 +99,13 @@ func FidelityGate(env *Env, seed uint64) (*FidelityResult, error) {
 					case sameExit && sortedLines(rs.Stdout) == sortedLines(rp.Stdout):
 						res.AsLineSet++
 					default:
+						// a tree whose output depends on map order or schedule is not
+						// an instrumentation problem: try to reach the plain result
+						// under other seeded orders before calling it one
+						if reachable(env, b, rp) {
+							res.OrderDependent++
+							return
+						}
 						if firstErr == nil {
 							firstErr = Infraf("FIDELITY: instrumented and plain binary disagree on `crd %s`: sim exit=%d stdout=%q stderr=%q; plain exit=%d stdout=%q stderr=%q",
 								strings.Join(b.Argv, " "), rs.Exit, first(rs.Stdout, 300), first(rs.Stderr, 300), rp.Exit, first(rp.Stdout, 300), first(rp.Stderr, 300))
